@@ -221,3 +221,64 @@ def rand_unimodular(rng, n, lower_only=False):
             if not lower_only:
                 U[j, i] = rng.choice([0, 0, 1, -1])
     return (L @ U).tolist()
+
+
+# ---------------------------------------------------------------------------------------------
+# rectangular probe WCS for C05/C06: world = A @ pixel + b, A integer (nworld x npix), optional
+# grouping of world axes into multi-component objects
+# ---------------------------------------------------------------------------------------------
+class Pair:
+    """a two-component high-level object (stands for SkyCoord-like classes)"""
+
+    def __init__(self, x, y):
+        self.x, self.y = x, y
+
+
+def make_probe_rect(A, b, types, groups=None, shape=None):
+    from astropy.wcs.wcsapi import BaseLowLevelWCS
+    import astropy.units as u
+    A = np.asarray(A, dtype=float)
+    b_ = np.asarray(b, dtype=float)
+    nw, npx = A.shape
+    groups = list(range(nw)) if groups is None else list(groups)
+
+    class ProbeRect(BaseLowLevelWCS):
+        pixel_n_dim = property(lambda self: npx)
+        world_n_dim = property(lambda self: nw)
+        world_axis_physical_types = property(lambda self: list(types))
+        world_axis_units = property(lambda self: ["m"] * nw)
+        world_axis_names = property(lambda self: [""] * nw)
+        pixel_shape = property(lambda self: None if shape is None else tuple(shape)[::-1])
+        array_shape = property(lambda self: None if shape is None else tuple(shape))
+        pixel_bounds = property(lambda self: None)
+        axis_correlation_matrix = property(lambda self: A != 0)
+        serialized_classes = False
+
+        def pixel_to_world_values(self, *p):
+            p = np.asarray(np.broadcast_arrays(*p), dtype=float)
+            w = np.tensordot(A, p, axes=(1, 0)) + b_.reshape((nw,) + (1,) * (p.ndim - 1))
+            return w[0] if nw == 1 else tuple(w)
+
+        def world_to_pixel_values(self, *w):
+            raise NotImplementedError
+
+        @property
+        def world_axis_object_components(self):
+            out, seen = [], {}
+            for k, g in enumerate(groups):
+                if groups.count(g) == 1:
+                    out.append((f"g{g}", 0, "value"))
+                else:
+                    pos = seen.get(g, 0)
+                    seen[g] = pos + 1
+                    out.append((f"g{g}", pos, "x" if pos == 0 else "y"))
+            return out
+
+        @property
+        def world_axis_object_classes(self):
+            d = {}
+            for g in set(groups):
+                d[f"g{g}"] = (u.Quantity, (), {"unit": u.m}) if groups.count(g) == 1 else (Pair, (), {})
+            return d
+
+    return ProbeRect()
